@@ -3,6 +3,8 @@
 import json, sys
 pid, wt = sys.argv[1], sys.argv[2]
 n = sys.argv[3] if len(sys.argv) > 3 else "2"
+avoid = sys.argv[4] if len(sys.argv) > 4 else ""
+tag = sys.argv[5] if len(sys.argv) > 5 else ""
 p = next(json.loads(l) for l in open('/verif/properties.jsonl') if json.loads(l)['id'] == pid)
 print(f"""You are testing how robust a Python library's guarantees are. The library is happy-simulator (a pure-Python discrete-event simulation engine with many simulated components). You have your own scratch git worktree of it at {wt} (work ONLY there; never touch /repo, and do not read or use anything under /verif - your work must be independent of it). Python: /venv/bin/python (the package imports from the worktree when you run with `cd {wt}` because tests use the source tree; check with `/venv/bin/python -c "import happysimulator,sys;print(happysimulator.__file__)"` run from inside {wt} - if it does not point into {wt}, run with PYTHONPATH={wt}).
 
@@ -18,6 +20,6 @@ TASK: produce {n} DIFFERENT, independent changes to the library source (each a s
   (b) BREAKS the property above;
   (c) needs something specific to manifest - a particular interleaving, a crash or fault at a particular point, a multi-step sequence of operations, an unusual input, or two cooperating sites that each look fine alone - NOT something that ordinary use would expose at once;
   (d) comes with a demonstration: a small standalone program demo.py (uses only the library's public or module-level API, exits 0 when the property holds and non-zero when it is violated, prints what it observed) that FAILS with the change and PASSES without it (verify both; NEVER use `git stash` - it is shared between worktrees; save your change with `git diff > {wt}/_seed/x.diff`, `git checkout -- happysimulator`, run, then `git apply {wt}/_seed/x.diff`).
-Make the changes in different functions / different aspects of the property if you can. Prefer changes in the anchored files or the functions they call.
+Make the changes in different functions / different aspects of the property if you can. Prefer changes in the anchored files or the functions they call.{(' Other testers have already covered these functions - do NOT change them, pick others (the property covers many more components than these): ' + avoid) if avoid else ''}
 
 DELIVERABLE: for change k = 1..{n} write the directory {wt}/_seed/{pid}-k/ containing: patch.diff (output of `git diff` in the worktree with ONLY that change applied, paths relative to the repository root so that `git apply` works), demo.py, and notes.txt (what the change is, why the tests do not notice, what it needs in order to manifest, the exact commands you ran and their results incl. the final pytest summary line with and the demo's exit status with/without the change). Leave the worktree clean of source changes at the end (git checkout -- happysimulator), keeping only _seed/. Your final message: a short list of the changes with one line each.""")
